@@ -109,34 +109,34 @@ SPECS = {
         assumptions=["strings passed to from_str are ASCII (a multi-byte first character makes `&input[..1]` panic; not modelled)"],
     ),
     "C02": engine_spec("C02", r"(p\d+\.\d+(\.size|\.dir)?$|v\d+\.total)",
-                       shards(6, 25) + shards(2, 25, prof="liq"), shards(12, 150) + shards(4, 150, prof="liq")),
-    "C03": engine_spec("C03", r"bal\.", shards(4, 25, "cw20") + shards(4, 25, "native"), shards(8, 150, "cw20") + shards(8, 150, "native")),
+                       shards(10, 40) + shards(6, 40, prof="liq"), shards(12, 150) + shards(4, 150, prof="liq")),
+    "C03": engine_spec("C03", r"bal\.", shards(8, 40, "cw20") + shards(8, 40, "native"), shards(8, 150, "cw20") + shards(8, 150, "native")),
     "C04": engine_spec("C04", r"(bal\.|p\d+\.\d+|e\.baddebt|v\d+\.(q|b|cpf))",
-                       shards(4, 25) + shards(2, 25, prof="funding") + shards(2, 25, prof="pcf"), shards(10, 150) + shards(3, 150, prof="funding") + shards(3, 150, prof="pcf")),
-    "C05": engine_spec("C05", r"(bal\.|p\d+\.\d+|e\.(init|maint))", shards(8, 25), shards(16, 150)),
+                       shards(8, 40) + shards(4, 40, prof="funding") + shards(4, 40, prof="pcf"), shards(10, 150) + shards(3, 150, prof="funding") + shards(3, 150, prof="pcf")),
+    "C05": engine_spec("C05", r"(bal\.|p\d+\.\d+|e\.(init|maint))", shards(16, 40), shards(16, 150)),
     "C06": engine_spec("C06", r"(bal\.|p\d+\.\d+|e\.(maint|liqfee|plr|baddebt)|v\d+\.(overspread|q|b))",
-                       shards(8, 25, prof="liq"), shards(16, 150, prof="liq")),
+                       shards(16, 40, prof="liq"), shards(16, 150, prof="liq")),
     "C07": engine_spec("C07", r"(p\d+\.\d+|e\.|v\d+\.(overspread|uprice|open)|if\.)",
-                       shards(6, 25, prof="liq") + shards(3, 25, prof="drain") + shards(2, 20, "-", "real", "liq"),
+                       shards(8, 40, prof="liq") + shards(6, 40, prof="drain") + shards(2, 20, "-", "real", "liq"),
                        shards(12, 150, prof="liq") + shards(6, 150, prof="drain") + shards(4, 100, "-", "real", "liq")),
-    "C10": Spec("C10", [Family("engine", shards(7, 25), shards(14, 150)), fam("forge", 6, 40)],
+    "C10": Spec("C10", [Family("engine", shards(10, 40), shards(14, 150)), fam("forge", 6, 40)],
                 merged((("engine", "forge"), mon_engine.monitor_for("C10"))),
                 ENGINE_RULE + "; plus the key-collision scenario: position keys are sha3(vamm || trader) without separator, an account whose address is a suffix of a trader's address "
                 "calls every position-touching entry point naming a forged vAMM string that completes the collision",
                 r"p\d+\.\d+"),
     "C11": engine_spec("C11", r"(v\d+\.(cpf|nextfund|twap|utwap|total|frate|ncpf)|bal\.(2|3)$|p\d+\.\d+\.(lupf|margin))",
-                       shards(6, 25, prof="funding") + shards(2, 25, prof="pcf"), shards(12, 150, prof="funding") + shards(4, 150, prof="pcf")),
-    "C12": engine_spec("C12", r"(bal\.|v\d+\.(toll|spread))", shards(8, 25), shards(16, 150)),
-    "C16": engine_spec("C16", r"(v\d+\.lrb|p\d+\.\d+\.block|p\d+\.\d+$)", shards(3, 25, prof="liq") + shards(5, 25, prof="c16"), shards(6, 150, prof="liq") + shards(10, 150, prof="c16")),
+                       shards(10, 40, prof="funding") + shards(6, 40, prof="pcf"), shards(12, 150, prof="funding") + shards(4, 150, prof="pcf")),
+    "C12": engine_spec("C12", r"(bal\.|v\d+\.(toll|spread))", shards(12, 40) + shards(4, 40, prof="reduce"), shards(16, 150) + shards(4, 150, prof="reduce")),
+    "C16": engine_spec("C16", r"(v\d+\.lrb|p\d+\.\d+\.block|p\d+\.\d+$)", shards(6, 40, prof="liq") + shards(10, 40, prof="c16"), shards(6, 150, prof="liq") + shards(10, 150, prof="c16")),
     "C20": engine_spec("C20", r"(e\.(init|maint|plr|liqfee|oi|wl)|v\d+\.(toll|spread|fluct|twapint|holdcap|oicap|dec)|if\.|p\d+\.\d+\.size)",
-                       shards(8, 25, prof="caps"), shards(16, 150, prof="caps")),
+                       shards(16, 40, prof="caps"), shards(16, 150, prof="caps")),
     "C15": engine_spec("C15", r"(v\d+\.(q|b|spot|s0|s1|fluct|snaps)|p\d+\.\d+(\.size)?$|e\.plr)",
-                       shards(6, 25, prof="fluct") + shards(2, 25, prof="pcf"), shards(12, 150, prof="fluct") + shards(4, 150, prof="pcf")),
-    "C14": Spec("C14", [Family("engine", shards(4, 25, prof="pause"), shards(12, 150, prof="pause")), fam("c14", 6, 30)],
+                       shards(10, 40, prof="fluct") + shards(6, 40, prof="pcf"), shards(12, 150, prof="fluct") + shards(4, 150, prof="pcf")),
+    "C14": Spec("C14", [Family("engine", shards(8, 40, prof="pause"), shards(12, 150, prof="pause")), fam("c14", 6, 30)],
                 merged((("engine", "c14"), mon_engine.monitor_for("C14"))),
                 ENGINE_RULE + "; plus the exhaustive matrix paused x open x registered x every engine operation and shutdown from every subset of already-closed vAMMs (1-3 registered)",
                 r"(e\.pause|v\d+\.open|if\.)"),
-    "C08": Spec("C08", [Family("engine", shards(4, 25) + shards(2, 25, prof="fluct") + shards(2, 25, prof="pcf"), shards(12, 150) + shards(4, 150, prof="fluct") + shards(4, 150, prof="pcf")), fam("faults", 10, 60)],
+    "C08": Spec("C08", [Family("engine", shards(6, 40) + shards(3, 40, prof="fluct") + shards(3, 40, prof="pcf"), shards(12, 150) + shards(4, 150, prof="fluct") + shards(4, 150, prof="pcf")), fam("faults", 10, 60)],
                 merged((("engine", "faults"), mon_engine.monitor_for("C08"))),
                 ENGINE_RULE + "; plus fault injection: for every engine operation of a history the operation is first attempted with a failure injected at sub-message 0, 1, 2, ... of its "
                 "message tree (vAMM swap, token transfers, insurance-fund withdrawal and its inner transfer) until the index passes the tree; raw storage of every contract and all balances "
@@ -150,12 +150,12 @@ SPECS = {
                 "twin deployments (cw20 / native, equal decimals and parameters, with and without fees) driven through the same history; each native call attaches exactly what the cw20 "
                 "deployment pulls from the caller; compared step by step: ok/err, every position, vAMM state, every balance",
                 r"(result|bal\.|p\d+\.|v\d+\.(q|b|total)|e\.(oi|baddebt|sentfunds))"),
-    "C01": Spec("C01", [fam("vamm", 30, 200), Family("engine", shards(3, 25), shards(8, 150))],
+    "C01": Spec("C01", [fam("vamm", 30, 200), Family("engine", shards(3, 40), shards(8, 150))],
                 merged((("vamm", "engine"), mon_more.mon("C01"))),
                 "vAMM-level histories (a plain account plays the engine): reserves from one unit to 2^100, amounts built to leave division remainders, both swap kinds and directions, "
                 "interleaved with funding, config and block changes; plus engine-driven histories; non-trivial = a swap that moved the reserves",
                 r"(result|v\d+\.(q|b|total))"),
-    "C17": Spec("C17", [fam("vamm", 30, 200), Family("engine", shards(3, 25) + shards(3, 25, prof="reduce"), shards(8, 150) + shards(6, 150, prof="reduce"))],
+    "C17": Spec("C17", [fam("vamm", 30, 200), Family("engine", shards(5, 40) + shards(5, 40, prof="reduce"), shards(8, 150) + shards(6, 150, prof="reduce"))],
                 merged((("vamm", "engine"), mon_more.mon("C17"))),
                 "vAMM-level swaps preceded by the corresponding amount query, limit tuner at quoted amount -1 / = / +1, both kinds and directions; engine OpenPosition/ClosePosition with "
                 "limits at the quoted amount +-1; opposite-side opens with a limit sized around the position's spot and TWAP notional right after a price move",
